@@ -3,7 +3,7 @@
 
 usage: check_log.py <shape.json> <log> [key=value ...]      prints one JSON summary on stdout
 """
-import sys, json, collections, math
+import sys, json, collections, math, copy
 from fractions import Fraction
 from logparse import parse, OP, OPS, METH
 import hmodel
@@ -81,6 +81,9 @@ class Checker:
                 self.on_destroy(op); continue
             if op.act is None:
                 self.v('C00', 'harness|op-without-snapshot', op); continue
+            if op.op == OP['COPY']:
+                self.on_copy(op); continue
+            self.lockstep(op)
             self.wf(op)
             self.step(op)
     # ------------------------------------------------------------------
@@ -117,12 +120,41 @@ class Checker:
         return pre, guards, cbs, enters, plines, llines
 
     def on_destroy(self, op):
+        if op.inst == 0: self.last0 = None
         st = self.state(op.inst)
         cbs = [(a[0], a[1]) for t, a in op.lines if t == 'c']
         self.life(op, st, cbs, None)
         if st['entered']: self.v('C03', 'life|states-still-entered-after-destruction', op, sorted(st['entered']))
         st.pop('hist', None)
         st['entered'] = set(); st['model'] = Model(self.shape, self.seed, self.knobs, self.deviations, self.limit); st['prev_op'] = None
+
+    # ------------------------------------------------------------------ C10: copies
+    def sig(self, op):
+        return (op.op, tuple((t, tuple(a)) for t, a in op.lines if t not in ('B',)), op.live, op.act, op.res, op.sub, tuple(op.prev or ()), tuple(sorted((op.tgt or {}).items())), op.draws)
+    def on_copy(self, op):
+        src = self.inst.get(0)
+        self.stats['C10.copies'] += 1
+        if any(t == 'c' for t, a in op.lines): self.v('C10', 'copy|copy-construction-invoked-callbacks', op)
+        if src is None or src['prev_op'] is None: return
+        po = src['prev_op']
+        if (op.live, op.act, op.res, op.sub) != (po.live, po.act, po.res, po.sub): self.v('C10', 'copy|copy-differs-from-original-right-after-copying', op, {'original': [po.act, po.res], 'copy': [op.act, op.res]})
+        st = {'model': copy.deepcopy(src['model']), 'entered': set(src['entered']), 'prev_op': op, 'constructed': True, 'plan': copy.deepcopy(src['plan'])}
+        if 'hist' in src: st['hist'] = list(src['hist'])
+        self.inst[op.inst] = st
+        self.wf(op)
+    def lockstep(self, op):
+        if op.inst == 0: self.last0 = op; return
+        if op.inst != 3: return
+        o = getattr(self, 'last0', None)
+        if o is None or o.step != op.step or o.op != op.op: return
+        self.last0 = None
+        self.stats['C10.lockstep-operations'] += 1
+        a, b = self.sig(o), self.sig(op)
+        if a != b:
+            i = 0; la = list(a[1]); lb = list(b[1])
+            while i < min(len(la), len(lb)) and la[i] == lb[i]: i += 1
+            self.v('C10', 'copy|copy-does-not-continue-as-the-original-would', op, {'first-difference-at-event': i, 'original': la[i:i + 3], 'copy': lb[i:i + 3], 'snapshots': [o.act, op.act, o.res, op.res]})
+        else: self.nontrivial['C10'].add((op.act, op.res, op.op))
 
     # ------------------------------------------------------------------ C03
     def life(self, op, st, cbs, act_after):
